@@ -208,13 +208,13 @@ func c01ParseScenario(z []int64) (*c01Scenario, error) {
 
 type c01Gen struct {
 	StartNano, StopNano int64
-	Stopped            bool
-	Disk               map[string][]e2eQueueFile // output -> files after the stop
-	Drops              map[string]map[string]int // output -> pipeline id -> dropped_chunks_total of this generation
-	Created            map[string]map[string]int // output -> pipeline id -> process_chunks_total
-	FirstAttempt       map[string]int            // output -> first server attempt number of this generation
-	Filtered           int                       // process_labelled_records_total{label="marker"}: records dropped by the filter
-	Malformed          int                       // input_dropped_records_total: records rejected by the parser
+	Stopped             bool
+	Disk                map[string][]e2eQueueFile // output -> files after the stop
+	Drops               map[string]map[string]int // output -> pipeline id -> dropped_chunks_total of this generation
+	Created             map[string]map[string]int // output -> pipeline id -> process_chunks_total
+	FirstAttempt        map[string]int            // output -> first server attempt number of this generation
+	Filtered            int                       // process_labelled_records_total{label="marker"}: records dropped by the filter
+	Malformed           int                       // input_dropped_records_total: records rejected by the parser
 }
 
 // c01Run is everything observed in one scenario.
